@@ -349,6 +349,7 @@ func checkAtomicWrite(r *Report, rule string, fn *ssa.Function, pathParam int, d
 func init() {
 	register("C03", func(r *Report) {
 		ruleCommitOrder(r)
+		ruleRolloverSwitch(r)
 		ruleBucketAfterWrite(r)
 		ruleHeaderBeforeRemove(r, "header-before-remove")
 		ruleMetaAtomic(r)
